@@ -790,6 +790,40 @@ theorem c03_vote_refines_c01_claim {η : Type} [DecidableEq η] (key : FxVerif.M
     simp only [hL', Bool.not_false, if_true]
     exact ⟨trivial, hlo, fun hx => by cases hx⟩
 
+open FxVerif.Proofs.C01Refine in
+/-- C03, the attestation table: under the same local correspondence, after an ACCEPTED vote the attestation the claim is filed
+under has the same votes (the new vote appended) and the same observed flag in both models — also when the vote made the event
+take effect and the C01 model pruned old attestations in the same step (the attestation of the nonce just observed is never
+pruned) -/
+theorem c03_vote_refines_c01_claim_att {η : Type} [DecidableEq η] (key : FxVerif.Model.C03.AnyClaim → η) (le : η → η → Bool)
+    (s3 : FxVerif.Model.C03.AState η) (s1 : State) (o : Nat) (c : FxVerif.Model.C03.AnyClaim) (hp : Bool)
+    (w i h : Nat) (kind : Kind) (orc : Oracle)
+    (hreg : s1.byBridger.get (voter w i) = some o) (horc : s1.oracles.get o = some orc) (hon : orc.online = true)
+    (hvb : validateBasic w i = true)
+    (hlo : s3.lastObserved = s1.lastObserved)
+    (hln : FxVerif.Model.C03.lastNonceOf s3 o = effLast s1 o)
+    (hlc : FxVerif.Model.C03.logicCheck s3 c = logicCheck s1 kind)
+    (hpw : ∀ v, s3.powers.lookup v = (s1.oracles.get v).map Oracle.power)
+    (htot : s3.total = s1.lastTotalPower)
+    (hatt : ((FxVerif.Model.C03.attFor key s3 c).votes.map (·.1), (FxVerif.Model.C03.attFor key s3 c).observed) = attView s1 c.nonce h)
+    (hkp : hp = true ↔ ∃ ms, kind = .panics ms)
+    (hkd : c.deferred = parks kind)
+    (hok : (claimStep s1 w i c.nonce h kind).2 = .ok) :
+    ∃ a3 a1, FxVerif.Model.C03.getAtt (FxVerif.Model.C03.vote key le s3 o c hp).1.atts c.nonce (key c) = some a3 ∧
+      findAtt (claimStep s1 w i c.nonce h kind).1.atts c.nonce h = some a1 ∧
+      a3.votes.map (·.1) = a1.votes ∧ a3.observed = a1.observed := by
+  obtain ⟨hres, hobs, _, _⟩ := c03_vote_refines_c01_claim key le s3 s1 o c hp w i h kind orc hreg horc hon hvb hlo hln hlc hpw htot hatt hkp hkd
+  have hok3 : (FxVerif.Model.C03.vote key le s3 o c hp).2 = .ok := by
+    rw [hok] at hres
+    cases hr : (FxVerif.Model.C03.vote key le s3 o c hp).2 <;> simp [hr, resMatch] at hres ⊢
+  obtain ⟨a3, hg3, hv3, ho3⟩ := vote_voted_att key le s3 o c hp hok3
+  obtain ⟨a', _, hga', _, _, _, _, _, heq⟩ := claim_ok s1 w i c.nonce h kind hok
+  rw [hreg] at hga'; cases hga'
+  obtain ⟨a1, hg1, hv1, ho1⟩ := attest_voted_att s1 o c.nonce h kind
+  refine ⟨a3, a1, hg3, by rw [heq]; exact hg1, ?_, ?_⟩
+  · rw [hv3, hv1, ← hatt]
+  · rw [ho3, ho1, ← hatt, hobs]
+
 /-! ### non-vacuity of the refinement statements -/
 
 section
